@@ -7,6 +7,8 @@ import Proofs.C17.Block
 import Model.C17.MerkleProof
 import Proofs.C17.Bip158
 import Proofs.C17.PowLimit
+import Proofs.C17.MerkleProof
+import Proofs.C17.Bip158Spec
 /-!
 # C17 — block commitments: merkle roots, proofs, filters, compact blocks and targets
 
@@ -264,6 +266,48 @@ theorem proof_verify_sound (H : Bytes → Bytes) (l : List Bytes) (txid : Bytes)
   · right
     exact out_of_range_loop _ root.reverse l.length l (Nat.le_refl _) hr index.toNat txid.reverse _ (by omega) hd' hplain
 
+/-- `inner_node_check` on the EXECUTED byte-level verifier (`rootFromBranchBytesChecked` = `merkle_root_from_branch(…,
+    check_inner_node)`, the function the driver runs on `mk.verifyc`; `isTx` = the callback raises, executed at
+    `MerkleProof.innerNodeIsTx`), exactly: accepted with root `r` iff the index is not negative, the leaf and every
+    sibling are 32 bytes, the plain abstract verifier recomputes `r`, and no 64-byte pair hashed on the way up is
+    refused by the callback. -/
+theorem inner_node_check_bytes (H : Bytes → Bytes) (isTx : Bytes → Bool) (leaf : Bytes) (br : List Bytes)
+    (index : Int) (r : Bytes) :
+    rootFromBranchBytesChecked H isTx leaf br index = .ok r ↔
+      0 ≤ index ∧ leaf.length = 32 ∧ (∀ s ∈ br, s.length = 32) ∧
+      rootFromBranch (fun a b => H (a ++ b)) leaf br index.toNat = .ok r ∧
+      ∀ p ∈ pathPairs (fun a b => H (a ++ b)) leaf br index.toNat, isTx (p.1 ++ p.2) = false :=
+  checkedBytes_ok_iff H isTx leaf br index r
+
+/-- completeness of the executed verifier, `verify(prove(txs, i)) = True`: for a hash with 32-byte output (`hH`), a
+    tree of 32-byte leaves (`hw`) that is not flagged mutated (`hr`), the leaf at `i` with its merkle branch (display
+    order = each string reversed) is accepted against the root.  Hypothesis `hno` is necessary, not technical: an
+    honest tree one of whose 64-byte inner pairs on that path parses as a transaction IS refused (CVE-2017-12842 rule);
+    for `isTx = fun _ => false` (the plain verifier) it is void. -/
+theorem proof_verify_complete (H : Bytes → Bytes) (hH : ∀ b, (H b).length = 32) (isTx : Bytes → Bool)
+    (l : List Bytes) (i : Nat) (x root : Bytes) (hw : ∀ y ∈ l, y.length = 32)
+    (hx : l[i]? = some x) (hr : rootAndMutated (fun a b => H (a ++ b)) l = some (root, false))
+    (hno : ∀ p ∈ pathPairs (fun a b => H (a ++ b)) x (branch (fun a b => H (a ++ b)) l i) i, isTx (p.1 ++ p.2) = false) :
+    proofVerify H isTx x.reverse ((branch (fun a b => H (a ++ b)) l i).map List.reverse) (i : Int) root.reverse = true :=
+  proofVerify_complete H hH isTx l i x root hw hx hr hno
+
+/-- a proof binds its leaf: two proofs of the same depth accepted by the executed verifier at the same index against
+    the same root carry the same txid and the same siblings — or two distinct node pairs with equal hash are
+    exhibited.  (With `proof_verify_sound`: at index `i` of an unmutated tree only `l[i]` verifies, so a proof for leaf
+    `a` at `i` verifies at another index `j` only if `l[j] = a` as well, and for another leaf at `i` never.) -/
+theorem proof_verify_binds (H : Bytes → Bytes) (txid txid' : Bytes) (br br' : List Bytes) (index : Int) (root : Bytes)
+    (hd : br.length = br'.length)
+    (h1 : proofVerify H MerkleProof.innerNodeIsTx txid br index root = true)
+    (h2 : proofVerify H MerkleProof.innerNodeIsTx txid' br' index root = true) :
+    (txid = txid' ∧ br = br') ∨ ∃ a b c d, (a, b) ≠ (c, d) ∧ H (a ++ b) = H (c ++ d) := by
+  obtain ⟨_, _, _, _, p1, _⟩ := proof_verify_accepts H txid br index root h1
+  obtain ⟨_, _, _, _, p2, _⟩ := proof_verify_accepts H txid' br' index root h2
+  rcases branch_sound _ _ _ _ _ _ _ (by simpa using hd) p1 p2 with ⟨e1, e2⟩ | c
+  · left
+    refine ⟨List.reverse_injective e1, ?_⟩
+    exact (List.map_injective_iff.mpr List.reverse_injective) e2
+  · right; exact c
+
 /-- T3: `mutated` is raised iff some level the loop visits holds an equal pair at an even position. -/
 theorem merkle_mutated_iff (h : α → α → α) (l : List α) (r : α) (m : Bool)
     (hr : rootAndMutated h l = some (r, m)) :
@@ -292,6 +336,15 @@ example : proofVerify (fun b => (b.take 32).map (· + 1)) MerkleProof.innerNodeI
 example : MerkleProof.innerNodeIsTx
     ([1, 0, 0, 0, 1] ++ List.replicate 32 0xAA ++ [0, 0, 0, 0, 0] ++ [5, 0, 0, 0] ++ [1] ++
      [9, 0, 0, 0, 0, 0, 0, 0] ++ [4, 0x51, 0x52, 0x53, 0x54] ++ [0, 0, 0, 0]) = true := by decide
+
+-- the byte-level iff on the same toy proof (both sides hold), and the completeness statement's hypotheses met:
+-- two 32-byte leaves, toy hash with 32-byte output, pair not a transaction
+example : rootFromBranchBytesChecked (fun b => (b.take 32).map (· + 1)) MerkleProof.innerNodeIsTx
+    (List.replicate 32 7) [List.replicate 32 9] 0 = .ok (List.replicate 32 8) := by decide
+example : rootAndMutated (fun a b => ((a ++ b : Bytes).take 32).map (· + 1)) [List.replicate 32 7, List.replicate 32 9]
+    = some (List.replicate 32 8, false) := by
+  simp only [rootAndMutated, rootLoop, nextLevel, levelMutated]
+  decide
 
 -- non-vacuity on a three-leaf tree over a toy hash
 example : rootAndMutated (fun a b : Nat => 10 * a + b) [1, 2, 3] = some (153, false) := by
@@ -374,6 +427,54 @@ theorem bip158_build_matches_every_element (bh : Bytes) (outs prevs : List Bytes
     Bip158.matchAnyElems bh (Bip158.build bh outs prevs).1 (Bip158.build bh outs prevs).2 [e] = .ok true :=
   Bip158.build_matches_every_element bh outs prevs e he
 
+/-- T5 for ANY query list (repeats, any order, elements and strangers), on the functions the driver runs: `match_any`
+    on the filter built for a block never errs and answers `True` exactly when some query hashes — under the block's
+    key, into the filter's range `N·M` — onto the hashed value of an element of the contents rule (a member, or a
+    false positive: those are not excluded, their rate is not proved). -/
+theorem bip158_match_any_iff (bh : Bytes) (outs prevs qs : List Bytes) :
+    Bip158.matchAnyElems bh (Bip158.build bh outs prevs).1 (Bip158.build bh outs prevs).2 qs =
+      .ok (decide (∃ q ∈ qs, ∃ e ∈ Bip158.elements outs prevs,
+        Bip158.hashToRange (Bip158.keyFromBlockHash bh).1 (Bip158.keyFromBlockHash bh).2 q
+            ((Bip158.elements outs prevs).length * Bip158.M) =
+        Bip158.hashToRange (Bip158.keyFromBlockHash bh).1 (Bip158.keyFromBlockHash bh).2 e
+            ((Bip158.elements outs prevs).length * Bip158.M))) :=
+  Bip158.build_matchAny_iff bh outs prevs qs
+
+/-- …so there is no false negative whatever else is asked along: one query that is an element makes it `True`… -/
+theorem bip158_no_false_negative_any_query (bh : Bytes) (outs prevs qs : List Bytes) (e : Bytes)
+    (hq : e ∈ qs) (he : e ∈ Bip158.elements outs prevs) :
+    Bip158.matchAnyElems bh (Bip158.build bh outs prevs).1 (Bip158.build bh outs prevs).2 qs = .ok true :=
+  Bip158.build_matches_any_query bh outs prevs qs e hq he
+
+/-- …and `False` is definitive: no query is an element. -/
+theorem bip158_miss_is_definitive (bh : Bytes) (outs prevs qs : List Bytes)
+    (h : Bip158.matchAnyElems bh (Bip158.build bh outs prevs).1 (Bip158.build bh outs prevs).2 qs = .ok false) :
+    ∀ q ∈ qs, q ∉ Bip158.elements outs prevs :=
+  Bip158.build_miss_is_definitive bh outs prevs qs h
+
+/-- the contents rule the model's `elements` implements is BIP158's, as a set: scripts of outputs that are neither
+    empty nor start with OP_RETURN (the generated constant), non-empty scripts of spent outputs, nothing else. -/
+theorem bip158_contents_rule (outs prevs : List Bytes) (s : Bytes) :
+    s ∈ Bip158.elements outs prevs ↔
+      (s ∈ outs ∧ s ≠ [] ∧ s.head?.map (·.toNat) ≠ some Gen.Filter.OP_RETURN) ∨ (s ∈ prevs ∧ s ≠ []) :=
+  Bip158.elements_spec outs prevs s
+
+/-- 'equals the reference construction': `Bip158.build` (what the driver runs; tied to `BasicBlockFilter.from_block` by
+    the `f.build` stream and the ten rows of the BIP158 vector file) is `N` = the size of the contents rule and the
+    octets of BIP158's own `construct_gcs` — `Bip158.Spec`, written from the text of the BIP: `hash_to_range`, sort,
+    deltas from 0, `golomb_encode` as a run of 1s, a 0 and the P low bits big-endian — with the generated `P`, `M` and
+    the key read off the block hash.  (That `Spec` is BIP158 is by inspection; SipHash is a shared executable model.) -/
+theorem bip158_build_is_reference_construction (bh : Bytes) (outs prevs : List Bytes) :
+    Bip158.build bh outs prevs =
+      ((Bip158.elements outs prevs).length,
+       pack (Bip158.Spec.constructGcs (Bip158.elements outs prevs) Bip158.P
+         (Bip158.keyFromBlockHash bh).1 (Bip158.keyFromBlockHash bh).2 Bip158.M)) :=
+  Bip158.build_eq_reference bh outs prevs
+
+example : Bip158.Spec.golombEncode 6 2 = [true, false, true, false] := by decide
+example : Bip158.Spec.deltas 0 [1, 6, 6, 11] = [1, 5, 0, 5] := by decide
+example : [0x51] ∈ Bip158.elements [[0x6a, 1], [0x51], []] [[], [0x52]] := by decide
+example : ¬ [0x6a, 1] ∈ Bip158.elements [[0x6a, 1], [0x51], []] [[], [0x52]] := by decide
 example : encodeSet 2 [1, 6, 6, 11] = [0x32, 0x24] := by decide
 example : decodeSet 2 100 4 [0x32, 0x24] = .ok [1, 6, 6, 11] := by decide
 example : decodeSet 2 100 4 [0x32, 0x25] = .error .padding := by decide
@@ -421,6 +522,33 @@ theorem partial_block_fill_is_the_block (sid : Nat → Nat) (blk pre pool : List
           (pool.map fun w => (sid w, w)) = .ok slots) :
     fillP (partialView slots blk) (missingOf slots blk) = .ok blk :=
   fillP_reconstruct sid blk pre pool slots hcount hcoll h
+
+/-- T6, the whole exchange as EXECUTED (`roundTrip` = the driver's `cb.roundtrip`, tied to the real `CmpctBlock` /
+    `reconstruct` / `PartialBlock.missing_indexes` / `fill` by the stream of that name; it composes `compactOf`,
+    `reconstruct`, `partialView`, `missingIndexes`, `fillP`): a non-empty block announced with valid prefilled positions
+    (`hpos` = `_assert_positions`) whose own announced short ids are distinct (`hnd`), received by a node with ANY pool
+    — any order, repeats, strangers, a superset or a subset of the block — comes back as exactly the block, under the
+    weak collision hypothesis `hcoll`: a pool transaction may share a needed short id with a different needed
+    transaction provided the pool ALSO holds the needed one (the clash is then seen, the position left missing and
+    asked for).  Excluded, and not recoverable by BIP152 itself: a stranger standing alone under a needed short id (it
+    is placed; the merkle root check of the filled block is what catches it — `block_root_commits_to_transactions`). -/
+theorem compact_round_trip (sid : Nat → Nat) (blk pre pool : List Nat) (hne : blk ≠ [])
+    (hpos : positionsOk pre blk.length = true) (hnd : hasDup (compactOf sid blk pre) = false)
+    (hcoll : ∀ w ∈ pool, ∀ j ∈ freePos pre blk.length, ∀ b, blk[j]? = some b → sid w = sid b → w = b ∨ b ∈ pool) :
+    ∃ missing, roundTrip sid blk pre pool = .ok (missing, blk) :=
+  roundTrip_ok sid blk pre pool hne hpos hnd hcoll
+
+/-- …and an announcement two of whose short ids coincide is refused whatever the pool (`short ids are not unique:
+    re-request the block`) — never reconstructed into something else. -/
+theorem compact_round_trip_refuses_collision (sid : Nat → Nat) (blk pre pool : List Nat) (hne : blk ≠ [])
+    (hpos : positionsOk pre blk.length = true) (hd : hasDup (compactOf sid blk pre) = true) :
+    roundTrip sid blk pre pool = .error (.reconstruct .dupShortIds) :=
+  roundTrip_refuses_collision sid blk pre pool hne hpos hd
+
+-- short id = wtxid % 7: 30 and 23 clash in the pool (30 needed, held): position asked for; 99 is a harmless stranger
+example : roundTrip (· % 7) [10, 20, 30, 40] [0] [23, 20, 99, 30] = .ok ([2, 3], [10, 20, 30, 40]) := by decide
+-- 20 and 27 are both IN the block and clash: refused
+example : roundTrip (· % 7) [10, 20, 27] [0] [20] = .error (.reconstruct .dupShortIds) := by decide
 
 -- block [10,20,30,40], position 0 prefilled, short id = wtxid % 7; the pool holds 30, 20 twice and a stranger
 example : reconstruct [0] [20 % 7, 30 % 7, 40 % 7] [(30 % 7, 30), (20 % 7, 20), (4, 99), (20 % 7, 20)] =
